@@ -87,6 +87,8 @@ pub fn run_scene(sc: &Scene, bad: &mut Vec<String>) -> usize {
                         if (w.flags & PathFlags::ORIGINAL).bits() != want.bits() { bad.push(format!("{}: waypoint {} flagged {:#x} where given pose {} was expected", tag, i, w.flags.bits(), idx)); break; }
                         if !pose_close(&fk, &given[idx]) { bad.push(format!("{}: waypoint {} flagged {:#x} does not reproduce given pose {}", tag, i, w.flags.bits(), idx)); break; }
                     } else if interp {
+                        // a waypoint carrying LAND/TRACE/PARK claims to be a given pose, also when it carries LIN_INTERP besides
+                        if w.flags.intersects(PathFlags::ORIGINAL) && !given.iter().any(|g| pose_close(&fk, g)) { bad.push(format!("{}: waypoint {} flagged {:#x} (a given-pose flag) reproduces none of the given poses", tag, i, w.flags.bits())); break; }
                         if idx + 1 >= given.len() { bad.push(format!("{}: interpolated waypoint after PARK", tag)); break; }
                         let d = seg_dist(&fk.translation.vector, &given[idx].translation.vector, &given[idx + 1].translation.vector);
                         if d > 1e-6 { bad.push(format!("{}: interpolated waypoint {} is {:.3e} m off the straight segment between given poses {} and {}", tag, i, d, idx, idx + 1)); break; }
